@@ -122,8 +122,10 @@ SetItem(X, i, Y) ==
 (***************************************************************************)
 (* One state per pair of shapes                                            *)
 (***************************************************************************)
-Init == sx \in Shapes /\ st \in Shapes
-Next == UNCHANGED <<sx, st>>
+\* every pair of shapes is reached by appending one more axis to either shape
+Init == sx = <<>> /\ st = <<>>
+Next == \/ /\ Len(sx) < MaxRank /\ \E d \in DimVals : sx' = Append(sx, d) /\ UNCHANGED st
+        \/ /\ Len(st) < MaxRank /\ \E d \in DimVals : st' = Append(st, d) /\ UNCHANGED sx
 
 X0 == IdObj(sx)
 T0 == IdObj(st)
